@@ -41,6 +41,51 @@ func (o *OracleC03) After(x *Exec, op *Op, res *Res) {
 			delete(o.budget, d) // asset deleted: a re-created asset starts clean
 		}
 	}
+	if op.K == KReimport && res.OK {
+		// a genesis round trip leaves both share ledgers exactly as they were (dust included): the
+		// dust allowance of F-C03 must not absorb records lost or altered by export/import
+		pre := x.Pre()
+		for _, dn := range pre.AssetOrder {
+			if !pre.Assets[dn].TotalValidatorShares.Equal(s.Assets[dn].TotalValidatorShares) || !pre.Assets[dn].TotalTokens.Equal(s.Assets[dn].TotalTokens) {
+				x.Fail("C03", "import", "export/import changed the totals of asset %s: shares %s -> %s, tokens %s -> %s", dn, pre.Assets[dn].TotalValidatorShares, s.Assets[dn].TotalValidatorShares, pre.Assets[dn].TotalTokens, s.Assets[dn].TotalTokens)
+			}
+		}
+		for i := range pre.Vals {
+			for _, m := range []struct {
+				name string
+				a, b map[string]math.LegacyDec
+			}{{"validator shares", pre.Vals[i].ValShares, s.Vals[i].ValShares}, {"delegator-share total", pre.Vals[i].DelShares, s.Vals[i].DelShares}} {
+				keys := map[string]bool{}
+				for k := range m.a {
+					keys[k] = true
+				}
+				for k := range m.b {
+					keys[k] = true
+				}
+				for _, k := range sortedKeys(keys) {
+					av, bv := m.a[k], m.b[k]
+					if av.IsNil() {
+						av = math.LegacyZeroDec()
+					}
+					if bv.IsNil() {
+						bv = math.LegacyZeroDec()
+					}
+					if !av.Equal(bv) {
+						x.Fail("C03", "import", "export/import changed the %s of validator %d in %s: %s -> %s", m.name, i, k, av, bv)
+					}
+				}
+			}
+		}
+		if len(pre.Dels) != len(s.Dels) {
+			x.Fail("C03", "import", "export/import changed the number of delegations: %d -> %d", len(pre.Dels), len(s.Dels))
+		}
+		for i := range pre.Dels {
+			if pre.Dels[i].Key() != s.Dels[i].Key() || !pre.Dels[i].Shares.Equal(s.Dels[i].Shares) {
+				x.Fail("C03", "import", "export/import changed delegation %s (%s shares) into %s (%s shares)", pre.Dels[i].Key(), pre.Dels[i].Shares, s.Dels[i].Key(), s.Dels[i].Shares)
+			}
+		}
+		x.Label("c03:ledgers-compared-across-import")
+	}
 	// delegator-share sums per (validator, denom)
 	sum := map[string]math.LegacyDec{}
 	for _, d := range s.Dels {
